@@ -403,14 +403,16 @@ def replay_escape(items):
     return out
 
 
-NEG_TREE = ["b/", "b/a/", "b/a/x", "b/a/y/", "b/a/y/z", "b/c", "b/d/", "b/d/a/", "b/d/a/w", "b/d/e", "b/f.rs"]
+# two names are not valid UTF-8 (%FC): they are matched through their lossy conversion (U+FFFD)
+NEG_TREE = ["b/", "b/a/", "b/a/x", "b/a/y/", "b/a/y/z", "b/c", "b/d/", "b/d/a/", "b/d/a/w", "b/d/e", "b/f.rs",
+            "b/men%FC.bak", "b/caf%FC/", "b/caf%FC/inner"]
 NEGATIONS = [["a/**"], ["**/a/**"], ["a"], ["**/a"], ["*.rs"], ["**/*.rs", "d/**"], ["a/**", "c"], ["d/*"], [""],
-             ["**/{x,w}"], ["a/y/**", "**/e"]]
+             ["**/{x,w}"], ["a/y/**", "**/e"], ["**/*.bak"], ["caf?/**"], ["men?.bak", "a"]]
 
 
 def replay_negation_walks(items):
     from core import probe
-    rels = [""] + [t.rstrip("/")[2:] for t in NEG_TREE if t != "b/"]
+    rels = [""] + [t.rstrip("/")[2:].replace("%FC", "\ufffd") for t in NEG_TREE if t != "b/"]
     cmds = [{"op": "walk", "tree": NEG_TREE, "base": "b", "glob": None,
              "stack": [{"not": {"pats": pats, "mode": "any_text"}}]} for pats in NEGATIONS]
     rows = probe(cmds)
@@ -443,7 +445,9 @@ def replay_walk_errors(items):
     place; the remaining entries unaffected; errors pass through combinator stacks unchanged."""
     from core import probe
     stacks = [[], [{"filter": {"tree": [], "file": []}}], [{"not": {"pats": ["zzz"], "mode": "any_text"}}],
-              [{"filter": {"tree": [], "file": ["c"]}}, {"not": {"pats": ["nothing/e"], "mode": "any_text"}}]]
+              [{"filter": {"tree": [], "file": ["c"]}}, {"not": {"pats": ["nothing/e"], "mode": "any_text"}}],
+              [{"not": {"pats": ["**/{*loop,*dangling,zd,0d}"], "mode": "any_text"}}],
+              [{"not": {"pats": ["**/{*loop,*dangling,zd,0d}/**"], "mode": "any_text"}}, {"filter": {"tree": [], "file": []}}]]
     cmds = [{"op": "walk", "tree": ERR_TREE, "links": ERR_LINKS, "base": "b", "glob": None, "stack": st,
              "behavior": {"link": "target"}} for st in stacks]
     rows = probe(cmds)
